@@ -4,3 +4,5 @@
 package hap
 
 func verifWriteGate(con *Connection, sealed []byte) {}
+
+func verifWriteEnter(con *Connection) {}
